@@ -65,6 +65,8 @@ def key_of(c):
         if c["time"] != min(n["delay"] for n in succ):
             return "waited-for-slower-node"
         return "wrong-answer"
+    if c["res"] == "RBug" and c["prim"]:
+        return "internal-error-with-primaries"
     if c.get("cancel"):
         return "cancel-not-prompt"
     called = any(s != "NotCalled" for s in c["sf"])
@@ -102,13 +104,15 @@ def main():
     R.coverage["rule"] = ("one evaluation = one call of the real multi client (Instrument / NewMultiForT) against scripted nodes in a synctest bubble; "
                           "kinds: corpus, exhaustive (every outcome vector over {success, timeout, syncing, gateway, other error, hang[, rejected answer]} and every completion order: "
                           "<= 2 primaries x <= 1 fallback at quick (full product, 3 styles); <= 3 x <= 2 at thorough: full product for Plain and Submit, for Pred the fallback group is fully enumerated whenever no primary succeeds or hangs and reduced to 4 groups otherwise), "
-                          "cancel (a cancellation or deadline in every gap of the run's timeline, and an already cancelled context), random (up to 6 primaries, 4 fallbacks), ties (equal latencies); "
+                          "wide (9 and 12 nodes in a group, a success behind 8 or 11 hung / slow nodes: more nodes than forkjoin's default worker count), cancel (a cancellation or deadline in every gap of the run's timeline, and an already cancelled context), random (up to 6 primaries, 4 fallbacks), ties (equal latencies); "
                           "styles: Plain = SlotsPerEpoch, Pred = NodeSyncing (success predicate), Submit = SubmitAttestations; "
                           "non-trivial = at least 2 primaries and the result is a fallback's answer, a node's error, or a primary's answer although another primary failed or hangs; distinct by the whole label")
     R.coverage["input_distribution"] = {
         "kinds": dict(collections.Counter(c["kind"] for c in cs)),
         "styles": dict(collections.Counter(c["style"] for c in cs)),
         "results": dict(collections.Counter(c["res"].strip("()").split()[0] for c in cs)),
+        "results_by_group": dict(collections.Counter(" ".join(c["res"].replace("(", " ").split()[:2]) for c in cs)),
+        "node_status": dict(collections.Counter(s.split()[0] for c in cs for s in c["sp"] + c["sf"])),
         "primaries": dict(collections.Counter(len(c["prim"]) for c in cs)),
         "fallbacks": dict(collections.Counter(len(c["fb"]) for c in cs)),
         "with_cancellation": sum(1 for c in cs if c.get("cancel")),
@@ -136,8 +140,7 @@ def main():
                 r = rows[i]
                 R.violation("classification:" + r["kind"].strip("()").replace(" ", ""),
                             "a single primary failing with %s: fallback consulted = %s, the classification table of the model says %s" % (r["kind"], r["consulted"], not r["consulted"]),
-                            {"kind": "classify", "style": r["style"], "error": r["kind"],
-                             "how": "harness/multi classification(): one primary returning this constructed error, one healthy fallback"})
+                            r.get("spec") or {"kind": "classify", "style": r["style"], "error": r["kind"]})
 
     shards = list(vp.chunks(cs, 1000))
 
